@@ -934,6 +934,9 @@ impl Explorer {
         let m_after_len = pool.model[t].as_ref().map(|m| m.len()).unwrap_or(0);
         let counted = self.track_heap;
         let total_req = if counted { log.len() as u64 } else { dc.total() };
+        // temporaries: allocations the crate caused outside its own (hooked) allocator calls; only
+        // meaningful while a shim is installed (otherwise the crate's own requests land there too)
+        let foreign = if shim::mode() != shim::Mode::Off { info.foreign.unwrap_or(0) } else { 0 };
 
         // ------------------------------------------------------------------ C08 clone is O(1)
         if op.is_clone_like() && ok {
@@ -944,12 +947,12 @@ impl Explorer {
             // the only legitimate request: the destination releasing a buffer it owned alone
             let dst_last = before.present && before.kind == Kind::Heap && before.rc == Some(1);
             let allowed_dealloc = if dst_last { 1 } else { 0 };
-            if dc.alloc != 0 || dc.realloc != 0 || dc.dealloc > allowed_dealloc {
+            if dc.alloc != 0 || dc.realloc != 0 || dc.dealloc > allowed_dealloc || foreign != 0 {
                 Self::viol(
                     out,
                     8,
                     "clone-o1",
-                    format!("clone issued allocator requests: {} alloc, {} realloc, {} dealloc", dc.alloc, dc.realloc, dc.dealloc),
+                    format!("clone issued allocator requests: {} alloc, {} realloc, {} dealloc, {} allocation(s) of temporaries", dc.alloc, dc.realloc, dc.dealloc, foreign),
                 );
             }
             match s.kind {
@@ -1017,12 +1020,12 @@ impl Explorer {
                 );
             if small_routes && m_after_len <= INLINE_CAP {
                 self.cov.mon("construct-inline", true);
-                if c.total() != 0 || a.kind != Kind::Inline {
+                if c.total() != 0 || a.kind != Kind::Inline || foreign != 0 {
                     Self::viol(
                         out,
                         9,
                         "construct-inline",
-                        format!("text of {} bytes: {} allocator requests, storage {:?}", m_after_len, c.total(), a.kind),
+                        format!("text of {} bytes: {} allocator requests, {} allocation(s) of temporaries, storage {:?}", m_after_len, c.total(), foreign, a.kind),
                     );
                 }
                 let lastb = pool.model[t].as_ref().and_then(|m| m.as_bytes().last().copied()).unwrap_or(0);
@@ -1030,14 +1033,14 @@ impl Explorer {
                 self.cov.hit(9, sig, || format!("{} -> inline len {}", op.show(), m_after_len));
             } else if text_routes && m_after_len > INLINE_CAP && faults == 0 {
                 self.cov.mon("construct-one-alloc", true);
-                if c.alloc != 1 || c.realloc != 0 || c.dealloc != 0 || a.cap != a.len || a.kind != Kind::Heap {
+                if c.alloc != 1 || c.realloc != 0 || c.dealloc != 0 || a.cap != a.len || a.kind != Kind::Heap || foreign != 0 {
                     Self::viol(
                         out,
                         9,
                         "construct-one-alloc",
                         format!(
-                            "text of {} bytes: {} alloc / {} realloc / {} dealloc, capacity {}, storage {:?}",
-                            m_after_len, c.alloc, c.realloc, c.dealloc, a.cap, a.kind
+                            "text of {} bytes: {} alloc / {} realloc / {} dealloc, {} allocation(s) of temporaries, capacity {}, storage {:?}",
+                            m_after_len, c.alloc, c.realloc, c.dealloc, foreign, a.cap, a.kind
                         ),
                     );
                 }
@@ -1060,8 +1063,8 @@ impl Explorer {
             if let Op::FromStatic { id, .. } = op {
                 self.cov.mon("static-borrow", true);
                 let txt = static_text(*id);
-                if c.total() != 0 {
-                    Self::viol(out, 10, "static-borrow", format!("from_static_str issued {} allocator requests", c.total()));
+                if c.total() != 0 || foreign != 0 {
+                    Self::viol(out, 10, "static-borrow", format!("from_static_str issued {} allocator requests, {} allocation(s) of temporaries", c.total(), foreign));
                 }
                 if txt.len() > INLINE_CAP {
                     if a.ptr != txt.as_ptr() as usize || a.kind != Kind::Static {
@@ -1103,12 +1106,12 @@ impl Explorer {
             )
         {
             self.cov.mon("inline-edit", true);
-            if total_req != 0 || a.kind != Kind::Inline {
+            if total_req != 0 || a.kind != Kind::Inline || foreign != 0 {
                 Self::viol(
                     out,
                     9,
                     "inline-edit",
-                    format!("edit within 16 bytes: {} allocator requests, storage {:?}", total_req, a.kind),
+                    format!("edit within 16 bytes: {} allocator requests, {} allocation(s) of temporaries, storage {:?}", total_req, foreign, a.kind),
                 );
             }
             let sig = mix(tag_hash(op.tag()), mix(2000 + l_before as u64, m_after_len as u64));
@@ -1126,12 +1129,12 @@ impl Explorer {
             };
             if read_only && ok {
                 self.cov.mon("static-readonly-op", true);
-                if total_req != 0 || a.ptr != before.ptr || a.kind != Kind::Static {
+                if total_req != 0 || a.ptr != before.ptr || a.kind != Kind::Static || foreign != 0 {
                     Self::viol(
                         out,
                         10,
                         "static-readonly-op",
-                        format!("{} on a static string: {} requests, ptr moved: {}, storage {:?}", op.tag(), total_req, a.ptr != before.ptr, a.kind),
+                        format!("{} on a static string: {} requests, {} allocation(s) of temporaries, ptr moved: {}, storage {:?}", op.tag(), total_req, foreign, a.ptr != before.ptr, a.kind),
                     );
                 }
                 self.cov.hit(10, mix(tag_hash(op.tag()), len_class(a.len)), || format!("{} on static len {}", op.tag(), before.len));
@@ -1173,14 +1176,16 @@ impl Explorer {
         };
         if appendish && ok && exclusively_owned && m_after_len <= before.cap && m_after_len >= l_before {
             self.cov.mon("append-within-capacity", true);
-            if total_req != 0 || a.ptr != before.ptr {
+            // (iterator- and fmt-driven appends run harness code inside the call: no temporaries rule for them)
+            let foreign_here = if matches!(op, Op::Push { .. } | Op::PushStr { .. } | Op::Insert { .. } | Op::InsertStr { .. }) { foreign } else { 0 };
+            if total_req != 0 || a.ptr != before.ptr || foreign_here != 0 {
                 Self::viol(
                     out,
                     11,
                     "append-within-capacity",
                     format!(
-                        "{}: len {} -> {} fits capacity {} of an exclusively owned string but {} allocator request(s), text moved: {}",
-                        op.tag(), l_before, m_after_len, before.cap, total_req, a.ptr != before.ptr
+                        "{}: len {} -> {} fits capacity {} of an exclusively owned string but {} allocator request(s), {} allocation(s) of temporaries, text moved: {}",
+                        op.tag(), l_before, m_after_len, before.cap, total_req, foreign_here, a.ptr != before.ptr
                     ),
                 );
             }
